@@ -356,6 +356,20 @@ def gen(rng, n_cases, exhaustive_upto=0):
                 case["open_tie"] = list(rng.choice(pairs))
         if n > 1 and one.count % 8 == 3:
             case["x"][rng.randrange(1, n)] = 0.0          # ... or without reactance
+        if n > 2 and one.count % 8 in (5, 6):
+            # an end bus (or a whole tail) without any load or production: exactly zero flow on its line
+            deg = [0] * n
+            for i in range(1, n):
+                deg[i] += 1; deg[parent[i]] += 1
+            ends = [i for i in range(n) if deg[i] == 1 and i != case["slack"]]
+            if ends:
+                e = rng.choice(ends)
+                zero = [e]
+                nb = parent[e] if e != 0 and parent[e] >= 0 else next((i for i in range(1, n) if parent[i] == e), None)
+                if nb is not None and deg[nb] == 2 and nb != case["slack"] and one.count % 8 == 6:
+                    zero.append(nb)
+                for z in zero:
+                    case["p"][z] = case["q"][z] = case["pg"][z] = case["qg"][z] = 0.0
         return case
     from .c07 import all_trees
     for nb in range(2, exhaustive_upto + 1):
